@@ -7,7 +7,6 @@ From KV Require Import Lib.Bits Lib.Bytes Lib.Varint Model.MsgSetReader Model.Re
   Proofs.ReaderPrim Proofs.ReaderV2.
 Import ListNotations.
 Open Scope Z_scope.
-Set Default Timeout 30.
 
 Section Run.
 Variable decomp : Z -> list N -> option (list N).
@@ -250,6 +249,11 @@ Proof.
   exists i'. cbn [read_header_loop]. unfold bind at 1. rewrite Hi'. reflexivity.
 Qed.
 
+Lemma tokens_cons_rec r rs bs : tokens (r :: rs) bs = S (tokens rs bs).
+Proof. reflexivity. Qed.
+Lemma tokens_cons_batch b bs : tokens [] (b :: bs) = S (tokens (pb_recs b) bs).
+Proof. unfold tokens. cbn [length fold_right]. lia. Qed.
+
 (* at a batch boundary: skip record-less batches, land on the first batch with records *)
 Lemma loop_bnd : forall bs j hdr el fuel,
   Forall v2ok bs -> 0 <= j -> (length bs < fuel)%nat ->
@@ -261,7 +265,8 @@ Lemma loop_bnd : forall bs j hdr el fuel,
       /\ read_header_loop fuel (st (ztake j (encs bs)) 0 hdr 0 el)
          = MOk tt (st (ztake j' (erecs b (r :: rs') ++ encs bs')) (Z.of_nat (S (length rs'))) (hdr_of b)
                       (len (erecs b (r :: rs'))) el')
-      /\ forall off last, bstep bs j off last el = rec_step b r rs' bs' j' off el').
+      /\ (forall off last, bstep bs j off last el = rec_step b r rs' bs' j' off el')
+      /\ (S (tokens (r :: rs') bs') <= tokens [] bs)%nat /\ (length bs' < length bs)%nat).
 Proof.
   induction bs as [|b bs' IH]; intros j hdr el fuel Hok Hj Hfuel.
   - left. destruct fuel as [|f]; [cbn in Hfuel; lia|].
@@ -286,12 +291,13 @@ Proof.
         assert (Hp : plen_of b = 0) by (unfold plen_of; rewrite Erecs; reflexivity).
         rewrite Hp. cbn [enc_records flat_map app].
         destruct (IH (j - 61) (hdr_of b) (pb_base b + pb_lod b) f Hbs' ltac:(lia) ltac:(lia))
-          as [(i' & hdr' & el' & H1 & H2)|(b2 & r2 & rs2 & bs2 & j2 & el2 & K1 & K2 & K3 & K4 & K5 & K6)].
+          as [(i' & hdr' & el' & H1 & H2)|(b2 & r2 & rs2 & bs2 & j2 & el2 & K1 & K2 & K3 & K4 & K5 & K6 & K7 & K8)].
         -- left. exists i', hdr', el'. split; [exact H1|exact H2].
-        -- right. exists b2, r2, rs2, bs2, j2, el2. split; [exact K1|]. split; [exact K2|]. split; [exact K3|]. split; [exact K4|]. split; [exact K5|exact K6].
+        -- right. exists b2, r2, rs2, bs2, j2, el2. split; [exact K1|]. split; [exact K2|]. split; [exact K3|]. split; [exact K4|]. split; [exact K5|]. split; [exact K6|].
+           rewrite tokens_cons_batch, Erecs. cbn [length]. unfold tokens in *. cbn [length] in *. lia.
       * right. exists b, r, rs', bs', (j - 61), el.
         split; [exact Hb|]. split; [exact Erecs|]. split; [lia|]. split; [exact Hbs'|].
-        split; [|reflexivity].
+        split; [|split; [reflexivity|rewrite tokens_cons_batch, Erecs; cbn [length]; lia]].
         replace (Z.of_nat (length (r :: rs')) =? 0) with false by (cbn [length]; lia).
         f_equal. unfold plen_of, erecs. rewrite Erecs. cbn [length]. rewrite blen_len. reflexivity.
 Qed.
@@ -339,10 +345,6 @@ Proof.
   intros H. injection H as <- <-. cbn [a_b a_rs a_bs a_j a_hdr a_off a_last a_el]. repeat split; try reflexivity; lia.
 Qed.
 
-Lemma tokens_cons_rec r rs bs : tokens (r :: rs) bs = S (tokens rs bs).
-Proof. reflexivity. Qed.
-Lemma tokens_cons_batch b bs : tokens [] (b :: bs) = S (tokens (pb_recs b) bs).
-Proof. unfold tokens. cbn [length fold_right]. lia. Qed.
 
 Lemma incl_tail {A} (x : A) l l' : incl (x :: l) l' -> incl l l'.
 Proof. intros H y Hy. apply H. right. exact Hy. Qed.
@@ -364,7 +366,7 @@ Proof.
     change (erecs b []) with (@nil N). cbn [app]. change (len []) with 0.
     fold (BSt (st (ztake j (encs bs)) 0 hdr 0 el) off last).
     destruct (loop_bnd bs j hdr el fuel Hbs Hj Hfuel)
-      as [(i' & hdr' & el' & H1 & H2)|(b2 & r2 & rs2 & bs2 & j2 & el2 & K1 & K2 & K3 & K4 & K5 & K6)].
+      as [(i' & hdr' & el' & H1 & H2)|(b2 & r2 & rs2 & bs2 & j2 & el2 & K1 & K2 & K3 & K4 & K5 & K6 & K7 & K8)].
     + rewrite H2.
       pose proof (msr_read_via_loop_err fuel off _ _ _ _ _ _ H1) as Hm.
       destruct (b1_of_short fuel _ _ _ _ _ off last _ _ _ _ _ Hm) as (b' & Hb1 & Hb2).
@@ -377,23 +379,7 @@ Proof.
       destruct (rec_step b2 r2 rs2 bs2 j2 off el2) as [r0 p'|f] eqn:Ers; [|exact Hb].
       split; [exact Hb|].
       destruct (rec_step_inv _ _ _ _ _ _ _ _ _ Ers) as (E0 & E1 & E2 & E3 & E4 & E5 & E6 & E7 & _).
-      (* bs2 is a suffix of bs after b2 *)
-      assert (Hsuf : (S (tokens (pb_recs b2) bs2) <= tokens [] bs)%nat /\ (length bs2 < length bs)%nat).
-      { clear -K6 K2 Hj. revert j el K6 Hj.
-        induction bs as [|b0 bs0 IH]; intros j el K6 Hj.
-        - specialize (K6 0 0). cbn [bstep] in K6. unfold rec_step in K6. cbv zeta in K6.
-          destruct (_ <? _) in K6; discriminate K6.
-        - cbn [bstep] in K6. destruct (j <? 61) eqn:Ej.
-          + specialize (K6 0 0). unfold rec_step in K6. cbv zeta in K6. destruct (_ <? _) in K6; discriminate K6.
-          + destruct (pb_recs b0) as [|r0' rs0'] eqn:Er0.
-            * destruct (IH (j - 61) (pb_base b0 + pb_lod b0) K6 ltac:(lia)) as [I1 I2].
-              rewrite tokens_cons_batch. unfold tokens in *. cbn [length] in *. lia.
-            * assert (Heq : b0 = b2 /\ bs0 = bs2).
-              { specialize (K6 0 0). unfold rec_step in K6. cbv zeta in K6.
-                destruct (j - 61 <? _) in K6; destruct (j2 <? _) in K6; try discriminate K6.
-                injection K6 as _ Hb0 _ Hbs0 _. auto. }
-              destruct Heq as [-> ->]. rewrite tokens_cons_batch. cbn [length]. lia. }
-      rewrite K2 in Hsuf. destruct Hsuf as [Hs1 Hs2].
+      pose proof K7 as Hs1. pose proof K8 as Hs2.
       split; [|split].
       * unfold pos_ok. rewrite E1, E2, E3, E4, E6. split; [lia|]. split; [exact K4|].
         intros _. split; [exact K1|]. split; [reflexivity|]. apply (incl_tail r2). exact Hincl.
@@ -413,6 +399,75 @@ Proof.
       intros _. split; [exact Hok|]. split; [reflexivity|]. apply (incl_tail r). exact Hincl.
     + rewrite E2, E3. rewrite tokens_cons_rec. lia.
     + rewrite E3. cbn [a_bs]. lia.
+Qed.
+
+(* ---------------------------------------------------------------- Batch.ReadMessage and the run *)
+Definition T (p : apos) : nat := tokens (a_rs p) (a_bs p).
+
+Lemma len_le_tokens rs bs : (length bs <= tokens rs bs)%nat.
+Proof. unfold tokens. induction bs as [|b t IH]; cbn [length fold_right]; lia. Qed.
+
+Inductive ares := ADeliver (r : record) (p : apos) | AStop (f : Z) | AOut.
+
+Fixpoint a_read (fuel : nat) (p : apos) {struct fuel} : ares :=
+  match fuel with
+  | O => AOut
+  | S f =>
+    match step1 p with
+    | ARec r p' => if r_off r <? o then a_read f p' else ADeliver r p'
+    | AEnd x => AStop x
+    end
+  end.
+
+Fixpoint a_run (fuel : nat) (p : apos) (acc : list msg) {struct fuel} : option (list msg * Z) :=
+  match fuel with
+  | O => None
+  | S f =>
+    match a_read (S f) p with
+    | ADeliver r p' => a_run f p' (msg_of r :: acc)
+    | AStop x => Some (rev acc, x)
+    | AOut => None
+    end
+  end.
+
+Lemma conc_fields p : b_has_conn (conc p) = true /\ b_conn_off (conc p) = o.
+Proof. split; reflexivity. Qed.
+
+Lemma read_refine : forall fuel p, pos_ok p -> (T p < fuel)%nat ->
+  match a_read fuel p with
+  | ADeliver r p' => batch_read decomp fuel (conc p) = BMsg (msg_of r) (conc p') /\ pos_ok p' /\ (T p' < T p)%nat
+  | AStop f => exists b', batch_read decomp fuel (conc p) = BErr EEOF b' /\ b_off b' = f
+  | AOut => False
+  end.
+Proof.
+  induction fuel as [|f IH]; intros p Hok HT; [lia|].
+  cbn [a_read batch_read].
+  pose proof (b1_step p (S f) Hok) as Hs.
+  assert (Hl : (length (a_bs p) < S f)%nat) by (pose proof (len_le_tokens (a_rs p) (a_bs p)); unfold T in HT; lia).
+  specialize (Hs Hl).
+  destruct (step1 p) as [r p'|x].
+  - destruct Hs as (H1 & H2 & H3 & H4). rewrite H1.
+    cbn [b_has_conn b_conn_off conc g_off msg_of andb].
+    destruct (r_off r <? o) eqn:E.
+    + specialize (IH p' H2 ltac:(unfold T in *; lia)).
+      destruct (a_read f p') as [r2 p2|x2|]; [|exact IH|exact IH].
+      destruct IH as (I1 & I2 & I3). split; [exact I1|]. split; [exact I2|]. unfold T in *. lia.
+    + split; [reflexivity|]. split; [exact H2|]. unfold T. exact H3.
+  - destruct Hs as (b' & H1 & H2). rewrite H1. exists b'. split; [reflexivity|exact H2].
+Qed.
+
+Lemma run_refine : forall fuel p acc, pos_ok p -> (T p < fuel)%nat ->
+  match a_run fuel p acc with
+  | Some (ms, x) => batch_run decomp fuel (conc p) acc = Some (ms, EEOF, x)
+  | None => False
+  end.
+Proof.
+  induction fuel as [|f IH]; intros p acc Hok HT; [lia|].
+  cbn [a_run batch_run].
+  pose proof (read_refine (S f) p Hok HT) as Hr.
+  destruct (a_read (S f) p) as [r p'|x|]; [| |exact Hr].
+  - destruct Hr as (H1 & H2 & H3). rewrite H1. apply IH; [exact H2|lia].
+  - destruct Hr as (b' & H1 & H2). rewrite H1, H2. reflexivity.
 Qed.
 
 End Run.
